@@ -519,7 +519,7 @@ var propParallel = &kit.Prop[Case]{
 var propE2E = &kit.Prop[Case]{
 	ID: "C18", Name: "e2e", Journal: true,
 	Rule: "end to end: martian.Proxy served on the shaped listener, scripted raw origin answering 200 or 206 with Content-Range (total known or '*'; multipart), Content-Length or chunked, raw client; " + rule,
-	Gen:  func(t *rapid.T) Case { return genHistory(t, "e2e", 9, []int{1000, 8000, 20000, 70000}) },
+	Gen:  func(t *rapid.T) Case { return genHistory(t, "e2e", 9, []int{1000, 20000, 40000, 70000}) },
 	Run:  runNamed("e2e"), NonTrivial: nontrivial, Classes: classes,
 	Gates: map[string]float64{"crosses-action": 0.25, "action-beyond-first-buffer": 0.08, "non-matching-response": 0.08},
 }
@@ -808,9 +808,9 @@ func TestResources(t *testing.T) {
 }
 
 func TestLocks(t *testing.T) {
-	n := kit.N(6, 12)
+	n := kit.N(10, 16)
 	if kit.Race() {
-		n = kit.N(6, 40)
+		n = kit.N(8, 40)
 	}
 	propLock.Check(t, n)
 }
